@@ -231,6 +231,7 @@ func main() {
 	genC22(repo, root, out)
 	genResets(root, out)
 	genWpRegions(root, out)
+	genPipeWrite(repo, out)
 }
 
 var tableNames = []string{
